@@ -17,8 +17,12 @@ NA = {
 "C18":"table lookup against the installed toolchain; enumeration of paths, nothing to schedule or fault",
 "C19":"pure function of (Qual/Anon/preamble combination, prefix, hints)",
 }
-PENDING = {k:"simulation target per DESIGN.md; check not yet built (will be claimed once it runs)" for k in ["C03","C08","C09","C10","C20"]}
+PENDING = {k:"simulation target per DESIGN.md; check not yet built (will be claimed once it runs)" for k in ["C03","C09","C10","C20"]}
 CLAIMED = {
+"C08": dict(engine="filesim", cat="exploration", ref="DESIGN.md 5.3",
+  technique="deterministic simulation: seeded operation histories on one File (renders, fragment renders, additions, late hints, failing writers) with simulator-chosen map order changing between renders; idempotence and name-stability oracle over the recorded history",
+  text="Seeded exploration of histories over one File and its fragments. R1: two renders of one object with nothing state-changing in between are byte-identical and end the same way; R2: the qualifier a path first appeared under (read out of the outputs) is used by every later output and bound by every later import block; R3: a failed write changes neither.",
+  note="Trusts go/scanner/go/parser to read names out of outputs; stays inside the stated domain (Anon only on never-referenced paths). Equal-text Dict keys and Dict-key registration order are open findings shared with C07."),
 "C07": dict(engine="filesim", cat="exploration", ref="DESIGN.md 5.2",
   technique="deterministic simulation: seeded search over map-iteration orders (every map range of package jen rewritten to a simulator-chosen permutation), byte comparison of repeated fresh builds; thorough adds a real-runtime cross-process leg",
   text="Seeded exploration: each run builds one generated File history K times from scratch, each time with every map range in package jen iterating in a different simulator-chosen order, and compares all rendered bytes. Sampling, not proof; what it adds over the tests is control of the one source of nondeterminism the property is about.",
